@@ -373,3 +373,48 @@ package core
 //@ lemma! pack_pairs_roundtrip(c int): 0 <= c && c <= 9999999999999999 ==> pairAt(c, 0) * 100000000000000 + pairAt(c, 1) * 1000000000000 + pairAt(c, 2) * 10000000000 + pairAt(c, 3) * 100000000 + pairAt(c, 4) * 1000000 + pairAt(c, 5) * 10000 + pairAt(c, 6) * 100 + pairAt(c, 7) == c
 //@ lemma! pack_dropped_pairs_zero(d dnum.Dnum, i int): validDnum(d) && dnFinite(d) && dnPackSize(d) <= i && i <= 9 ==> pairAt(d.coef, i - 2) == 0
 //@ lemma! pack_pairs_are_bytes(c int, j int): 0 <= c && c <= 9999999999999999 && 0 <= j && j <= 7 ==> 0 <= pairAt(c, j) && pairAt(c, j) <= 99
+
+// ---- packed integers -------------------------------------------------------------------------
+// digits of |n| by repeated division, as packInt computes them: dq(u,k) = u / 10^k, dig(u,k) its last digit
+//@ spec dq(u int, k int) int = k == 0 ? u : k == 1 ? (u / 10) : k == 2 ? ((u / 10) / 10) : k == 3 ? (((u / 10) / 10) / 10) : k == 4 ? ((((u / 10) / 10) / 10) / 10) : k == 5 ? (((((u / 10) / 10) / 10) / 10) / 10) : k == 6 ? ((((((u / 10) / 10) / 10) / 10) / 10) / 10) : k == 7 ? (((((((u / 10) / 10) / 10) / 10) / 10) / 10) / 10) : k == 8 ? ((((((((u / 10) / 10) / 10) / 10) / 10) / 10) / 10) / 10) : k == 9 ? (((((((((u / 10) / 10) / 10) / 10) / 10) / 10) / 10) / 10) / 10) : k == 10 ? ((((((((((u / 10) / 10) / 10) / 10) / 10) / 10) / 10) / 10) / 10) / 10) : k == 11 ? (((((((((((u / 10) / 10) / 10) / 10) / 10) / 10) / 10) / 10) / 10) / 10) / 10) : k == 12 ? ((((((((((((u / 10) / 10) / 10) / 10) / 10) / 10) / 10) / 10) / 10) / 10) / 10) / 10) : k == 13 ? (((((((((((((u / 10) / 10) / 10) / 10) / 10) / 10) / 10) / 10) / 10) / 10) / 10) / 10) / 10) : k == 14 ? ((((((((((((((u / 10) / 10) / 10) / 10) / 10) / 10) / 10) / 10) / 10) / 10) / 10) / 10) / 10) / 10) : k == 15 ? (((((((((((((((u / 10) / 10) / 10) / 10) / 10) / 10) / 10) / 10) / 10) / 10) / 10) / 10) / 10) / 10) / 10) : k == 16 ? ((((((((((((((((u / 10) / 10) / 10) / 10) / 10) / 10) / 10) / 10) / 10) / 10) / 10) / 10) / 10) / 10) / 10) / 10) : k == 17 ? (((((((((((((((((u / 10) / 10) / 10) / 10) / 10) / 10) / 10) / 10) / 10) / 10) / 10) / 10) / 10) / 10) / 10) / 10) / 10) : k == 18 ? ((((((((((((((((((u / 10) / 10) / 10) / 10) / 10) / 10) / 10) / 10) / 10) / 10) / 10) / 10) / 10) / 10) / 10) / 10) / 10) / 10) : k == 19 ? (((((((((((((((((((u / 10) / 10) / 10) / 10) / 10) / 10) / 10) / 10) / 10) / 10) / 10) / 10) / 10) / 10) / 10) / 10) / 10) / 10) / 10) : 0
+//@ spec dig(u int, k int) int = k < 0 ? 0 : dq(u, k) % 10
+//@ spec ndig(u int) int = dq(u, 1) == 0 ? 1 : dq(u, 2) == 0 ? 2 : dq(u, 3) == 0 ? 3 : dq(u, 4) == 0 ? 4 : dq(u, 5) == 0 ? 5 : dq(u, 6) == 0 ? 6 : dq(u, 7) == 0 ? 7 : dq(u, 8) == 0 ? 8 : dq(u, 9) == 0 ? 9 : dq(u, 10) == 0 ? 10 : dq(u, 11) == 0 ? 11 : dq(u, 12) == 0 ? 12 : dq(u, 13) == 0 ? 13 : dq(u, 14) == 0 ? 14 : dq(u, 15) == 0 ? 15 : dq(u, 16) == 0 ? 16 : dq(u, 17) == 0 ? 17 : dq(u, 18) == 0 ? 18 : dq(u, 19) == 0 ? 19 : 20
+//@ spec tzero(u int) int = dig(u, 0) != 0 ? 0 : dig(u, 1) != 0 ? 1 : dig(u, 2) != 0 ? 2 : dig(u, 3) != 0 ? 3 : dig(u, 4) != 0 ? 4 : dig(u, 5) != 0 ? 5 : dig(u, 6) != 0 ? 6 : dig(u, 7) != 0 ? 7 : dig(u, 8) != 0 ? 8 : dig(u, 9) != 0 ? 9 : dig(u, 10) != 0 ? 10 : dig(u, 11) != 0 ? 11 : dig(u, 12) != 0 ? 12 : dig(u, 13) != 0 ? 13 : dig(u, 14) != 0 ? 14 : dig(u, 15) != 0 ? 15 : dig(u, 16) != 0 ? 16 : dig(u, 17) != 0 ? 17 : dig(u, 18) != 0 ? 18 : 19
+//@ spec absInt(n int) int = n < 0 ? -n : n
+//@ spec intPairs(u int) int = (ndig(u) - tzero(u) + 1) / 2
+//@ spec intPackSize(n int) int = n == 0 ? 1 : 2 + intPairs(absInt(n))
+//@ spec intPackByte(n int, i int) int = i == 0 ? (n < 0 ? 2 : 3) : i == 1 ? cpl(n < 0, ndig(absInt(n)) + 128) : cpl(n < 0, dig(absInt(n), ndig(absInt(n)) - 1 - 2 * (i - 2)) * 10 + dig(absInt(n), ndig(absInt(n)) - 2 - 2 * (i - 2)))
+//@ func packSizeInt(n) (r)
+//@   arith wrap
+//@   ensures! r == intPackSize(n)
+//@   loop 0 unroll 20
+//@   loop 1 unroll 19
+//@   loop 2 unroll 10
+// packInt itself (the bytes written) is NOT under contract: with the three digit loops unrolled the
+// obligations did not discharge within the time limits; only its size function is proved
+//@ func (si SuInt64) PackSize(hash) (r)
+//@   ensures! r == intPackSize(si.int64)
+//@ func (si SuInt64) PackSize2(hash, stack) (r)
+//@   ensures! r == intPackSize(si.int64)
+
+// ---- order: the byte order of packed decimals against the order of the values ------------------
+// plessK(x, y): the packed strings agree before position K and x's is smaller from K on
+//@ spec pless9(x dnum.Dnum, y dnum.Dnum) bool = 9 >= dnPackSize(x) ? 9 < dnPackSize(y) : 9 >= dnPackSize(y) ? false : dnPackByte(x, 9) < dnPackByte(y, 9)
+//@ spec pless8(x dnum.Dnum, y dnum.Dnum) bool = 8 >= dnPackSize(x) ? 8 < dnPackSize(y) : 8 >= dnPackSize(y) ? false : dnPackByte(x, 8) < dnPackByte(y, 8) ? true : dnPackByte(x, 8) > dnPackByte(y, 8) ? false : pless9(x, y)
+//@ spec pless7(x dnum.Dnum, y dnum.Dnum) bool = 7 >= dnPackSize(x) ? 7 < dnPackSize(y) : 7 >= dnPackSize(y) ? false : dnPackByte(x, 7) < dnPackByte(y, 7) ? true : dnPackByte(x, 7) > dnPackByte(y, 7) ? false : pless8(x, y)
+//@ spec pless6(x dnum.Dnum, y dnum.Dnum) bool = 6 >= dnPackSize(x) ? 6 < dnPackSize(y) : 6 >= dnPackSize(y) ? false : dnPackByte(x, 6) < dnPackByte(y, 6) ? true : dnPackByte(x, 6) > dnPackByte(y, 6) ? false : pless7(x, y)
+//@ spec pless5(x dnum.Dnum, y dnum.Dnum) bool = 5 >= dnPackSize(x) ? 5 < dnPackSize(y) : 5 >= dnPackSize(y) ? false : dnPackByte(x, 5) < dnPackByte(y, 5) ? true : dnPackByte(x, 5) > dnPackByte(y, 5) ? false : pless6(x, y)
+//@ spec pless4(x dnum.Dnum, y dnum.Dnum) bool = 4 >= dnPackSize(x) ? 4 < dnPackSize(y) : 4 >= dnPackSize(y) ? false : dnPackByte(x, 4) < dnPackByte(y, 4) ? true : dnPackByte(x, 4) > dnPackByte(y, 4) ? false : pless5(x, y)
+//@ spec pless3(x dnum.Dnum, y dnum.Dnum) bool = 3 >= dnPackSize(x) ? 3 < dnPackSize(y) : 3 >= dnPackSize(y) ? false : dnPackByte(x, 3) < dnPackByte(y, 3) ? true : dnPackByte(x, 3) > dnPackByte(y, 3) ? false : pless4(x, y)
+//@ spec pless2(x dnum.Dnum, y dnum.Dnum) bool = 2 >= dnPackSize(x) ? 2 < dnPackSize(y) : 2 >= dnPackSize(y) ? false : dnPackByte(x, 2) < dnPackByte(y, 2) ? true : dnPackByte(x, 2) > dnPackByte(y, 2) ? false : pless3(x, y)
+//@ spec pless1(x dnum.Dnum, y dnum.Dnum) bool = 1 >= dnPackSize(x) ? 1 < dnPackSize(y) : 1 >= dnPackSize(y) ? false : dnPackByte(x, 1) < dnPackByte(y, 1) ? true : dnPackByte(x, 1) > dnPackByte(y, 1) ? false : pless2(x, y)
+//@ spec pless0(x dnum.Dnum, y dnum.Dnum) bool = 0 >= dnPackSize(x) ? 0 < dnPackSize(y) : 0 >= dnPackSize(y) ? false : dnPackByte(x, 0) < dnPackByte(y, 0) ? true : dnPackByte(x, 0) > dnPackByte(y, 0) ? false : pless1(x, y)
+//@ spec packedLess(x dnum.Dnum, y dnum.Dnum) bool = pless0(x, y)
+// one packed string is a proper prefix of the other (same sign, same exponent, the shorter coefficient is a prefix of the longer)
+//@ spec packedPrefix(x dnum.Dnum, y dnum.Dnum) bool = dnPackSize(x) != dnPackSize(y) && (0 < min(dnPackSize(x), dnPackSize(y)) ==> dnPackByte(x, 0) == dnPackByte(y, 0)) && (1 < min(dnPackSize(x), dnPackSize(y)) ==> dnPackByte(x, 1) == dnPackByte(y, 1)) && (2 < min(dnPackSize(x), dnPackSize(y)) ==> dnPackByte(x, 2) == dnPackByte(y, 2)) && (3 < min(dnPackSize(x), dnPackSize(y)) ==> dnPackByte(x, 3) == dnPackByte(y, 3)) && (4 < min(dnPackSize(x), dnPackSize(y)) ==> dnPackByte(x, 4) == dnPackByte(y, 4)) && (5 < min(dnPackSize(x), dnPackSize(y)) ==> dnPackByte(x, 5) == dnPackByte(y, 5)) && (6 < min(dnPackSize(x), dnPackSize(y)) ==> dnPackByte(x, 6) == dnPackByte(y, 6)) && (7 < min(dnPackSize(x), dnPackSize(y)) ==> dnPackByte(x, 7) == dnPackByte(y, 7)) && (8 < min(dnPackSize(x), dnPackSize(y)) ==> dnPackByte(x, 8) == dnPackByte(y, 8)) && (9 < min(dnPackSize(x), dnPackSize(y)) ==> dnPackByte(x, 9) == dnPackByte(y, 9))
+//@ lemma! pack_order_nonneg(x dnum.Dnum, y dnum.Dnum): validDnum(x) && validDnum(y) && -128 <= x.exp && x.exp <= 127 && -128 <= y.exp && y.exp <= 127 && x.sign >= 0 && y.sign >= 0 ==> (dnLess(x, y) <==> packedLess(x, y))
+//@ lemma! pack_order_sign(x dnum.Dnum, y dnum.Dnum): validDnum(x) && validDnum(y) && x.sign < 0 && y.sign >= 0 ==> packedLess(x, y) && !packedLess(y, x)
+//@ lemma! pack_order_neg(x dnum.Dnum, y dnum.Dnum): validDnum(x) && validDnum(y) && -128 <= x.exp && x.exp <= 127 && -128 <= y.exp && y.exp <= 127 && x.sign < 0 && y.sign < 0 && !packedPrefix(x, y) ==> (dnLess(x, y) <==> packedLess(x, y))
+// KNOWN FINDING (see /verif/known_findings.jsonl): for two negative numbers where the shorter digit string is a prefix of the
+// longer one (-12 and -12.5, -1200 and -1234) the packed order is the reverse of the value order
+//@ lemma! pack_order_neg_prefix(x dnum.Dnum, y dnum.Dnum): validDnum(x) && validDnum(y) && -128 <= x.exp && x.exp <= 127 && -128 <= y.exp && y.exp <= 127 && x.sign < 0 && y.sign < 0 && packedPrefix(x, y) ==> (dnLess(x, y) <==> packedLess(x, y))
